@@ -134,14 +134,14 @@ var registry = map[string]*Check{}
 func init() {
 	c07Overlay := []Inject{{RepoRel: "internal/actor/zz_verif_export.go", Src: "overlay/actor_export.go.txt"}}
 	registry["C07"] = &Check{
-		Rule: "generated histories of groups of {Start, Stop(timeout), cancel creating context} (a group is issued concurrently) over systems with a generated actor tree and an optional actor whose OnKill is gated; run inside a synctest bubble (virtual clock). Non-trivial = a concurrent group, or >=2 lifecycle calls with at least one issued after a successful Stop/cancel. Second unit ('any actor tree'): trees of 1-7 actors from the scenario engine of C03-C10 (own one-for-one / one-for-all strategies with every decision, failing OnLaunch incarnations, failing restart hooks = zombies, handlers that panic on OnKill / on a child's OnKilled / on their own OnKilled), a script of 1-5 failures / kills / spawns / watches executed right before - settled or racing - Stop(), Stop(50 ms | 1 s | 30 s) or the cancellation of the creating context; oracle: Stop returns nil within its timeout (no handler blocks in these trees), no actor context is registered afterwards (white-box table), no user code runs in the following 5 virtual minutes, a further Stop answers AlreadyStopped; slow terminators: 1-3 actors whose OnKill blocks on a gate that is opened after the Stop was issued, or only after a Stop(50 ms | 1 s) has timed out (then: the stop-failed error exactly at the timeout, later every actor gone and no goroutine left); non-trivial there = a nested tree or an actor that fails while terminating. Third unit ('with remoting', real sockets and clock): a system with 0-3 connections of kinds {answering vivid peer, dialled peer gone silent after the handshake, such a peer connected to the system, dialled peer that closed, a Tell to an unreachable address being retried, an actor that Tells an unreachable address from OnKill} is stopped by Stop() (timeout 8 s) or by cancelling its context; oracle: nil within the timeout, a further Stop answers AlreadyStopped within 500 ms, and after the answering peers are stopped too no goroutine with a frame of the library or its scheduler is left (polled for 25 s); non-trivial there = at least one connection. After every stop - clean or timed out - of the state-machine unit the goroutines of the bubble are counted once the slow actor has finished. Distinct = hash of the generated history.",
+		Rule: "generated histories of groups of {Start, Stop(timeout), cancel creating context} (a group is issued concurrently) over systems with a generated actor tree and an optional actor whose OnKill is gated; run inside a synctest bubble (virtual clock). Non-trivial = a concurrent group, or >=2 lifecycle calls with at least one issued after a successful Stop/cancel. Second unit ('any actor tree'): trees of 1-7 actors from the scenario engine of C03-C10 (own one-for-one / one-for-all strategies with every decision, failing OnLaunch incarnations, failing restart hooks = zombies, handlers that panic on OnKill / on a child's OnKilled / on their own OnKilled), a script of 1-5 failures / kills / spawns / watches executed right before - settled or racing - Stop(), Stop(50 ms | 1 s | 30 s) or the cancellation of the creating context; oracle: Stop returns nil within its timeout (no handler blocks in these trees), no actor context is registered afterwards (white-box table), no user code runs in the following 5 virtual minutes, a further Stop answers AlreadyStopped; slow terminators: 1-3 actors whose OnKill blocks on a gate that is opened after the Stop was issued, or only after a Stop(50 ms | 1 s) has timed out (then: the stop-failed error exactly at the timeout, later every actor gone and no goroutine left); non-trivial there = a nested tree or an actor that fails while terminating. Third unit ('with remoting', real sockets and clock): a system with 0-3 connections of kinds {answering vivid peer, dialled peer gone silent after the handshake, such a peer connected to the system, dialled peer that closed, a Tell to an unreachable address being retried, an actor that Tells an unreachable address from OnKill} is stopped by Stop() (timeout 8 s) or by cancelling its context; the system is a plain one, a self-seeded cluster node, a cluster node still joining an unreachable seed, or one whose Start cannot succeed (advertised address without a port; bind address in use - then: the following Stop and Start answer within 9 s and no library goroutine is left 15 s later); oracle: nil within the timeout, a further Stop answers AlreadyStopped within 500 ms, and after the answering peers are stopped too no goroutine with a frame of the library or its scheduler is left (polled for 25 s); non-trivial there = at least one connection. After every stop - clean or timed out - of the state-machine unit the goroutines of the bubble are counted once the slow actor has finished. Distinct = hash of the generated history.",
 		Assumptions: []string{
 			"virtual clock and quiescence by testing/synctest (Go 1.26.8); goroutines of a concurrent group really run in parallel, their interleaving is the Go scheduler's",
 			"remoting-enabled systems are exercised by the rlab-based checks (C11/C14), not here",
 		},
 		Units: []Unit{
 			{Name: "sm", Pkg: "c07", Run: "^(TestC07StateMachine|TestC07Regressions)$", QuickChecks: 6000, ThoroughChecks: 60000, ThoroughShards: 16, CaseFile: true, Inject: c07Overlay},
-			{Name: "net", Pkg: "c07", Run: "^TestC07StopWithRemoting$", Env: map[string]string{"VERIF_FAILFAST": "1"}, QuickChecks: 14, ThoroughChecks: 150, CaseFile: true, CrashOracle: "no-crash", Inject: c07Overlay, QuickTimeout: 15 * time.Minute, ThoroughTimeout: 60 * time.Minute},
+			{Name: "net", Pkg: "c07", Run: "^TestC07StopWithRemoting$", Env: map[string]string{"VERIF_FAILFAST": "1"}, QuickChecks: 20, ThoroughChecks: 150, CaseFile: true, CrashOracle: "no-crash", Inject: c07Overlay, QuickTimeout: 15 * time.Minute, ThoroughTimeout: 60 * time.Minute},
 			{Name: "tree", Pkg: "c07", Run: "^TestC07StopAnyTree$", QuickChecks: 6000, QuickShards: 4, ThoroughChecks: 80000, ThoroughShards: 16, CaseFile: true, CrashOracle: "no-crash", Inject: c07Overlay},
 		},
 	}
